@@ -36,7 +36,7 @@ Classes       == HandleClasses \cup ObjClasses
 DeadObj == [alive |-> FALSE, own |-> {}]
 NoObjs  == [o \in Objs |-> DeadObj]
 Idle == [pc |-> "idle", cls |-> "none", k |-> "none", tgt |-> "none", src |-> "none",
-         tofree |-> {}, failed |-> FALSE, tmp |-> {}]
+         tofree |-> {}, failed |-> FALSE, tmp |-> {}, oldThr |-> FALSE]
 NoLast == [cls |-> "none", k |-> "none", ret |-> "none", failed |-> FALSE, thr |-> FALSE]
 
 S0 == [live |-> {},          \* ledger: ids handed out by the allocator and not yet returned
@@ -77,6 +77,7 @@ BeginOK(s, c) ==
 NextCoderInit(s, k) ==
     IF s.init # k /\ Bug # "reuse_other_kind"
     THEN [s EXCEPT !.call.tofree = IF Bug = "no_next_end" THEN {} ELSE s.coder,   \* lzma_next_end(next)
+                   !.call.oldThr = (s.init \in Threaded /\ s.coder # {}),
                    !.coder = {}, !.base = 0, !.coderKind = "none", !.init = k]
     ELSE [s EXCEPT !.init = k]
 
@@ -155,9 +156,29 @@ FreeDo(s, id) ==
       [] s.call.pc = "obj" /\ id \in Own(s, s.call.src) -> [s1 EXCEPT !.objs[s.call.src].own = @ \ {id}]
       [] OTHER -> s1
 
-\* op encoding used by the recorder: id > 0 allocation, 0 failed allocation, -id free
-OpOK(s, op) == IF op > 0 THEN AllocOK(s, op) ELSE IF op = 0 THEN FailOK(s) ELSE FreeOK(s, -op)
-OpDo(s, op) == IF op > 0 THEN AllocDo(s, op) ELSE IF op = 0 THEN FailDo(s) ELSE FreeDo(s, -op)
+\* Worker threads of a threaded coder call the allocator concurrently with whatever the application thread is
+\* doing (any call, on the handle or on a caller-owned object).  Their allocations belong to the threaded coder:
+\* the current one, or the one being destroyed by lzma_next_end (call.tofree) until its threads are joined.
+OldCoderDying(s) == s.call.oldThr /\ s.call.tofree # {}
+WorkerAlive(s) == (s.init \in Threaded /\ s.base # 0) \/ OldCoderDying(s)
+WAllocOK(s, id) == id \notin s.live /\ WorkerAlive(s)
+WAllocDo(s, id) ==
+    LET s1 == [s EXCEPT !.live = @ \cup {id}, !.hids = @ \cup {id}] IN
+    IF OldCoderDying(s) THEN [s1 EXCEPT !.call.tofree = @ \cup {id}] ELSE [s1 EXCEPT !.coder = @ \cup {id}]
+WFailOK(s) == WorkerAlive(s)
+WFailDo(s) == [s EXCEPT !.pend = TRUE]
+WFreeOK(s, id) == WorkerAlive(s) /\ (id \in s.call.tofree \/ (id \in s.coder /\ id # s.base))
+WFreeDo(s, id) ==
+    LET s1 == LedgerFree(s, id) IN
+    IF id \in s.call.tofree THEN [s1 EXCEPT !.call.tofree = @ \ {id}] ELSE [s1 EXCEPT !.coder = @ \ {id}]
+
+\* op encoding used by the recorder: id > 0 allocation, 0 failed allocation, -id free; the same made by a thread
+\* other than the caller's: W + id, W, -(W + id)
+W == 500000
+OpOK(s, op) == IF op > W THEN WAllocOK(s, op - W) ELSE IF op = W THEN WFailOK(s) ELSE IF op < -W THEN WFreeOK(s, -op - W)
+               ELSE IF op > 0 THEN AllocOK(s, op) ELSE IF op = 0 THEN FailOK(s) ELSE FreeOK(s, -op)
+OpDo(s, op) == IF op > W THEN WAllocDo(s, op - W) ELSE IF op = W THEN WFailDo(s) ELSE IF op < -W THEN WFreeDo(s, -op - W)
+               ELSE IF op > 0 THEN AllocDo(s, op) ELSE IF op = 0 THEN FailDo(s) ELSE FreeDo(s, -op)
 
 -----------------------------------------------------------------------------
 (* Return of a call.  ret: "OK", "MEM_ERROR" (also NULL from a constructor     *)
